@@ -27,7 +27,7 @@ fn k_c17_proj_ref(region: u8, neg: bool) {
   kani::cover!(lon > 7.0 || lon < -7.0, "second turn");
   let (x, y) = hp::proj(lon, lat);
   let xa = f64::from_bits(lon.to_bits() & 0x7FFF_FFFF_FFFF_FFFF) * FOUR_OVER_PI_K;
-  let x8 = xa - 8.0 * ((xa / 8.0) as u64 as f64);
+  let x8 = xa - 8.0 * ((xa * 0.125) as u64 as f64);
   let ax = f64::from_bits(x.to_bits() & 0x7FFF_FFFF_FFFF_FFFF);
   let alat = f64::from_bits(lat.to_bits() & 0x7FFF_FFFF_FFFF_FFFF);
   let tol = 1.4210854715202004e-14;   // 2^-46
@@ -39,9 +39,9 @@ fn k_c17_proj_ref(region: u8, neg: bool) {
     if dx < -4.0 { dx += 8.0; }
     assert!(dx <= tol && dx >= -tol && (y - yr) <= tol && (y - yr) >= -tol, "C17: proj differs from the reference formulae (equatorial region)");
   } else {
-    let c = (alat / 2.0 + PI_OVER_FOUR_K).cos();
+    let c = (alat * 0.5 + PI_OVER_FOUR_K).cos();
     let t = SQRT6_K * c;
-    let q = (x8 / 2.0) as u64 as f64;
+    let q = (x8 * 0.5) as u64 as f64;
     let xm2 = x8 - 2.0 * q;
     let xr = (2.0 * q + 1.0) + (xm2 - 1.0) * t;
     let yr = if lat > 0.0 { 2.0 - t } else { t - 2.0 };
